@@ -23,8 +23,10 @@ LEVEL_TEXT = (
     "duplicated, reordered or invented); at quiescence every index below len reads the right command; without ignoredups/ignoreerr "
     "len and indexing agree at EVERY reachable state, flush in flight included. With those filters the full statement is false "
     "(C12_cex_len_index, known finding). The self-indexing JSON writer is modelled executably (LJ.ser) and tied (offsets, sizes and text "
-    "compared with lazyjson on generated values, every node of the real output checked against its index entry); its addressing "
-    "theorem is not proved yet. "
+    "compared with lazyjson on generated values, every node of the real output checked against its index entry) and its addressing "
+    "theorem is proved for EVERY JSON value, any nesting: each node's (offset, size) index entry cuts exactly that node's own "
+    "serialisation out of the file text and never reaches outside it (C12_lazyjson_addressing, C12_lazyjson_in_bounds; mutual "
+    "structural induction over value / element list / key-value list). "
     "Tie: real JsonHistory with the flusher threads held and released by the harness, real LazyJSON, real SQLite backend."
 )
 LEVEL_NOTE = (
